@@ -80,7 +80,7 @@ def run_case(config, reply, remote):
             for k, it in enumerate(pcs):
                 result, choice = reply['pattern'][k % len(reply['pattern'])]
                 tss = [t['name'] for t in it['ts']]
-                ts = tss[choice % len(tss)] if tss and result == 0 else ''
+                ts = tss[choice % len(tss)] if tss and (result == 0 or reply.get('ts_on_reject')) else ''
                 answers.append((it['id'], result, ts))
             state['answers'] = list(answers)
             if reply.get('permute'):
@@ -238,7 +238,9 @@ def configs(draw, big=False):
 
 replies = st.fixed_dictionaries({
     'pattern': st.lists(st.tuples(st.sampled_from([0, 0, 0, 1, 2, 3, 4]), st.integers(0, 2)), min_size=1, max_size=7),
-    'permute': st.booleans(), 'max': st.sampled_from([0, 4096, 16384, 2 ** 32 - 1])})
+    'permute': st.booleans(), 'max': st.sampled_from([0, 4096, 16384, 2 ** 32 - 1]),
+    # PS3.8 9.3.3.2: the transfer syntax of a rejected context is not significant - a peer may fill it in
+    'ts_on_reject': st.booleans()})
 remotes = st.fixed_dictionaries({'aet': st.sampled_from(['SRV', 'REMOTE', 'X' * 16]), 'address': st.just('peer.example'),
                                  'port': st.just(104)}).flatmap(
     lambda r: st.sampled_from([r, dict(r, username='user'), dict(r, username='user', password='secret')]))
@@ -269,7 +271,7 @@ def run_exhaustive_replies(ctx):
         opts = [(r, c) for r in (0, 1, 2, 3, 4) for c in ((0, 1) if r == 0 else (0,))]
         for pattern in itertools.product(opts, repeat=ncls):
             for permute in (False, True):
-                reply = {'pattern': list(pattern), 'permute': permute, 'max': 16384}
+                reply = {'pattern': list(pattern), 'permute': permute, 'max': 16384, 'ts_on_reject': permute}
                 try:
                     run_case(config, reply, remote)
                 except Violation as v:
